@@ -13,7 +13,11 @@ func (fv *FV) call(st *State, x *ssa.Call) *State {
 	c := x.Common()
 	if c.IsInvoke() {
 		recv := fv.vterm(st, c.Value)
-		fv.oblige(st, "nil", "invoke:"+c.Method.Name(), x.Pos(), tNot(tEq(tidOf(recv), mkInt(0))), "")
+		if recv.Sort == SVal {
+			fv.oblige(st, "nil", "invoke:"+c.Method.Name(), x.Pos(), tNot(tEq(tidOf(recv), mkInt(0))), "")
+		} else {
+			fv.oblige(st, "nil", "invoke:"+c.Method.Name(), x.Pos(), tNot(tEq(recv, mkInt(0))), "")
+		}
 		args := []Term{recv}
 		for _, a := range c.Args {
 			args = append(args, fv.vterm(st, a))
@@ -299,6 +303,11 @@ func (fv *FV) applyContract(st *State, spec *FuncSpec, fn *ssa.Function, c *ssa.
 	for _, cl := range spec.Ensures {
 		st.assume(post.Eval(cl.E))
 	}
+	fv.formatFacts(st, spec, c, args, res)
+	if n := len(res); n > 0 && sig != nil && isErrorType(sig.Results().At(n-1).Type()) {
+		strict := spec.Kind == "func" || spec.Kind == "iface" || spec.Kind == "functype"
+		fv.recordErr(st, res[n-1], tTrue, spec.Key, pos, strict)
+	}
 	for _, e := range errs {
 		fv.outsidef("contract error at call of %s: %s", spec.Key, e)
 	}
@@ -354,6 +363,17 @@ func (fv *FV) havocTarget(st *State, env *Env, a *Clause, spec *FuncSpec, pos to
 			cur = env.fieldStep(cur, idx)
 		}
 	case *ECall:
+		if x.Fn == "mapsof" {
+			names, sorts, ok := fv.assignHeapStatic(a.E, spec, nil, nil)
+			if !ok {
+				fv.outsidef("bad mapsof() target %s", a.Text)
+				return
+			}
+			for i, n := range names {
+				st.heap[n] = fv.freshConst(st, "hv_"+n, sorts[i], nil)
+			}
+			return
+		}
 		if x.Fn == "contents" && len(x.Args) == 1 {
 			m := env.Eval(x.Args[0])
 			mt, ok := m.T.Underlying().(*types.Map)
@@ -415,8 +435,19 @@ func (fv *FV) calleeFrameCheck(st *State, calleeOld *Env, spec *FuncSpec, pos to
 			}
 			fv.oblige(st, "frame", "callee:"+spec.Key+":"+x.Name, pos, tOr(alts...), "assigns")
 		case *ECall:
+			if x.Fn == "mapsof" {
+				names, _, ok := fv.assignHeapStatic(a.E, spec, nil, nil)
+				if ok && !fv.wildMaps()[names[0]] {
+					fv.oblige(st, "frame", "callee:"+spec.Key+":mapsof", pos, tFalse, "assigns")
+				}
+			}
 			if x.Fn == "contents" && len(x.Args) == 1 {
 				m := calleeOld.Eval(x.Args[0])
+				if mt, ok := m.T.Underlying().(*types.Map); ok {
+					if fv.wildMaps()[mapValHeap(fv.sortOf(mt.Key()), fv.sortOf(mt.Elem()))] {
+						continue
+					}
+				}
 				alts := []Term{tNot(fv.allocAtEntry(m))}
 				for _, mine := range fv.spec.Assigns {
 					if mc, ok := mine.E.(*ECall); ok && mc.Fn == "contents" {
@@ -532,4 +563,22 @@ func (fv *FV) builtin(st *State, x *ssa.Call, b *ssa.Builtin) {
 			st.frame.Regs[x] = tv(fv.freshConst(st, "bi", fv.sortOf(x.Type()), x.Type()))
 		}
 	}
+}
+
+// wildMaps: map heaps this function may assign wholesale (assigns mapsof("...")).
+func (fv *FV) wildMaps() map[string]bool {
+	out := map[string]bool{}
+	if fv.spec == nil {
+		return out
+	}
+	for _, a := range fv.spec.Assigns {
+		if c, ok := a.E.(*ECall); ok && c.Fn == "mapsof" {
+			if names, _, ok := fv.assignHeapStatic(a.E, fv.spec, nil, nil); ok {
+				for _, n := range names {
+					out[n] = true
+				}
+			}
+		}
+	}
+	return out
 }
